@@ -110,8 +110,14 @@ NMEA_FIELD = st.one_of(st.just(""), st.sampled_from(["A", "N", "W", "1", "12", "
 
 @st.composite
 def nmea_items(draw):
-    kind = draw(st.sampled_from(["corpus", "corpus", "corpus", "gen", "badck", "unknown", "mutfield"]))
+    kind = draw(st.sampled_from(["corpus", "corpus", "corpus", "gen", "badck", "unknown", "mutfield",
+                                 "prop-odd"]))
     base = draw(st.sampled_from(corpus()["nmea"]))
+    if kind == "prop-odd":
+        # proprietary sentences whose message-id field is missing or very short
+        body = draw(st.sampled_from(["PUBX", "PQTMSN", "PASHR,1,2", "PASHR", "PASHR,", "PTNL", "PUBX,00",
+                                     "PGRMI", "P", "PX", "PSTI,", "PQTMVERNO", "PASHR,POS"]))
+        return item("nmea", codec.nmea_frame(body), "prop-odd")
     if kind == "corpus":
         return item("nmea", base, "good")
     if kind == "badck":
